@@ -94,17 +94,30 @@ Record msg_def := {
 
 Record msg_out := { o_text : text; o_atts : list text; o_qrs : list text; o_lang : lang }.
 
-Definition evaluate_message (contact_lang : lang) (allowed : list lang) (base : lang) (m : msg_def)
-  : msg_out :=
+(* [ev_text], [ev_atts], [ev_qrs] stand for template evaluation of the localized values: the evaluated text, the
+   evaluated attachments that remain (invalid ones are dropped) and the evaluated quick replies that remain (empty ones
+   are dropped).  The reported language is decided on the EVALUATED parts: a message whose text evaluates to "" is a
+   text-less message. *)
+Definition pick_lang (t0 : text) (atts qrs : list text) (txt_lang att_lang qrs_lang : lang) : lang :=
+  if negb (text_empty t0) then txt_lang
+  else match atts with _ :: _ => att_lang
+       | [] => match qrs with _ :: _ => qrs_lang | [] => nil_lang end
+       end.
+
+Definition evaluate_message_gen (ev_text : text -> text) (ev_atts ev_qrs : list text -> list text)
+           (contact_lang : lang) (allowed : list lang) (base : lang) (m : msg_def) : msg_out :=
   let '(ltext, txt_lang) := get_text contact_lang allowed base [m_text m] (tr_text m) in
   let '(latts, att_lang) := get_text contact_lang allowed base (m_atts m) (tr_atts m) in
   let '(lqrs, qrs_lang) := get_text contact_lang allowed base (m_qrs m) (tr_qrs m) in
-  let t0 := hd [] ltext in
-  let l := if negb (text_empty t0) then txt_lang
-           else match latts with _ :: _ => att_lang
-                | [] => match lqrs with _ :: _ => qrs_lang | [] => nil_lang end
-                end in
-  {| o_text := t0; o_atts := latts; o_qrs := lqrs; o_lang := l |}.
+  let t0 := ev_text (hd [] ltext) in
+  let atts := ev_atts latts in
+  let qrs := ev_qrs lqrs in
+  {| o_text := t0; o_atts := atts; o_qrs := qrs; o_lang := pick_lang t0 atts qrs txt_lang att_lang qrs_lang |}.
+
+(* template-free values: evaluation is the identity *)
+Definition evaluate_message (contact_lang : lang) (allowed : list lang) (base : lang) (m : msg_def)
+  : msg_out :=
+  evaluate_message_gen (fun t => t) (fun l => l) (fun l => l) contact_lang allowed base m.
 
 (* matchCase: localized case arguments are ignored unless their number equals the base arguments' *)
 Definition case_arguments (contact_lang : lang) (allowed : list lang) (base : lang)
@@ -113,23 +126,29 @@ Definition case_arguments (contact_lang : lang) (allowed : list lang) (base : la
   if Nat.eqb (length largs) (length args) then largs else args.
 
 (* evaluateMessage with an explicit language list (languages <> nil), as send_broadcast calls it *)
-Definition evaluate_message_in (langs : list lang) (base : lang) (m : msg_def) : msg_out :=
+Definition evaluate_message_in_gen (ev_text : text -> text) (ev_atts ev_qrs : list text -> list text)
+           (langs : list lang) (base : lang) (m : msg_def) : msg_out :=
   let '(ltext, txt_lang) := get_text_in langs base [m_text m] (tr_text m) in
   let '(latts, att_lang) := get_text_in langs base (m_atts m) (tr_atts m) in
   let '(lqrs, qrs_lang) := get_text_in langs base (m_qrs m) (tr_qrs m) in
-  let t0 := hd [] ltext in
-  let l := if negb (text_empty t0) then txt_lang
-           else match latts with _ :: _ => att_lang
-                | [] => match lqrs with _ :: _ => qrs_lang | [] => nil_lang end
-                end in
-  {| o_text := t0; o_atts := latts; o_qrs := lqrs; o_lang := l |}.
+  let t0 := ev_text (hd [] ltext) in
+  let atts := ev_atts latts in
+  let qrs := ev_qrs lqrs in
+  {| o_text := t0; o_atts := atts; o_qrs := qrs; o_lang := pick_lang t0 atts qrs txt_lang att_lang qrs_lang |}.
+
+Definition evaluate_message_in (langs : list lang) (base : lang) (m : msg_def) : msg_out :=
+  evaluate_message_in_gen (fun t => t) (fun l => l) (fun l => l) langs base m.
 
 (* SendBroadcastAction.Execute: one content per language, for the flow language followed by the languages the
    localization has entries for (sorted); each evaluated with the list [language; flow language]; the map keeps
    the last content written for a language (a repeated language gets the same content) *)
+Definition broadcast_translations_gen (ev_text : text -> text) (ev_atts ev_qrs : list text -> list text)
+           (base : lang) (loc_langs : list lang) (m : msg_def) : list (lang * msg_out) :=
+  map (fun l => (l, evaluate_message_in_gen ev_text ev_atts ev_qrs [l; base] base m)) (base :: loc_langs).
+
 Definition broadcast_translations (base : lang) (loc_langs : list lang) (m : msg_def)
   : list (lang * msg_out) :=
-  map (fun l => (l, evaluate_message_in [l; base] base m)) (base :: loc_langs).
+  broadcast_translations_gen (fun t => t) (fun l => l) (fun l => l) base loc_langs m.
 
 Fixpoint text_eqb (a b : text) : bool :=
   match a, b with
@@ -176,3 +195,49 @@ Definition play_audio_out (contact_lang : lang) (allowed : list lang) (base : la
            (audio : text) (tr_audio : translations) : option ivr_out :=
   let '(a, al) := get_text1 contact_lang allowed base audio tr_audio in
   if text_empty a then None else Some {| i_text := []; i_audio := a; i_lang := al |}.
+
+
+(* ---- send_msg built from a channel template: its variables are a localized item property like any other
+   (flows/actions/send_msg.go); the templating pads/cuts them to the number of variables of the template
+   translation (flows/template.go Templating) ------------------------------------------------------------ *)
+Fixpoint pad_to (n : nat) (l : list text) : list text :=
+  match n with
+  | O => []
+  | S n' => match l with [] => [] :: pad_to n' [] | x :: l' => x :: pad_to n' l' end
+  end.
+
+Definition template_variables (contact_lang : lang) (allowed : list lang) (base : lang)
+           (nvars : nat) (vars : list text) (tr : translations) : list text :=
+  pad_to nvars (fst (get_text contact_lang allowed base vars tr)).
+
+(* ---- BroadcastTranslations.ForContact (flows/msg.go): what a host gets for one recipient out of the contents of a
+   broadcast_created event: the recipient's language if allowed, the environment default, the base language; the
+   first non-empty text / attachments / quick replies among the entries of those languages; the language reported
+   is the one that supplied the TEXT ------------------------------------------------------------------------ *)
+Fixpoint lookup_bc (bc : list (lang * msg_out)) (l : lang) : option msg_out :=
+  match bc with
+  | [] => None
+  | (l', o) :: rest =>
+      (* a later entry for the same language overwrites an earlier one (Go map) *)
+      match lookup_bc rest l with
+      | Some o' => Some o'
+      | None => if N.eqb l l' then Some o else None
+      end
+  end.
+
+Definition for_contact_langs (recipient_lang : lang) (allowed : list lang) (base : lang) : list lang :=
+  (if negb (N.eqb recipient_lang nil_lang) && lang_in recipient_lang allowed then [recipient_lang] else [])
+    ++ [env_default allowed; base].
+
+Definition fc_merge (acc : msg_out) (l : lang) (t : msg_out) : msg_out :=
+  let take_text := text_empty (o_text acc) && negb (text_empty (o_text t)) in
+  {| o_text := if take_text then o_text t else o_text acc;
+     o_lang := if take_text then l else o_lang acc;
+     o_atts := match o_atts acc with [] => o_atts t | _ => o_atts acc end;
+     o_qrs := match o_qrs acc with [] => o_qrs t | _ => o_qrs acc end |}.
+
+Definition for_contact (recipient_lang : lang) (allowed : list lang) (base : lang)
+           (bc : list (lang * msg_out)) : msg_out :=
+  fold_left (fun acc l => match lookup_bc bc l with None => acc | Some t => fc_merge acc l t end)
+            (for_contact_langs recipient_lang allowed base)
+            {| o_text := []; o_atts := []; o_qrs := []; o_lang := nil_lang |}.
